@@ -41,7 +41,8 @@
      sequential runs of the library's write / delete programs), and the reader's result is the result of the same read
      on the tree obtained by running the first n of them one after the other.  Hypotheses: arguments the record codec
      accepts (kv_ok, decidable), no digest collision among the data involved (NoColl) nor with content already stored
-     (coll0).
+     (coll0).  C07_serializable_mixed: the same with readers of two kinds in one pool, read by key and metadata (index
+     lookup); all answers and the final state are those of one sequential order.
    Serialisability of whole operations mixing readers / removers / listers, bounded (the bound is part of each statement): for the nine concrete pairs below — drawn from the
    property's operation set on cold and warm caches, with a toy hash, concrete keys and contents (two writers of one key /
    of one content are taken after their private temp-file phase, i.e. as two commits) — EVERY interleaving of
@@ -149,6 +150,25 @@ Theorem C07_serializable_with_readers (HL : HashLen hash) ws f0 m0 W0 ks pl' rl'
     (forall j a, (j < List.length ks)%nat -> nth j rl' (Ret Stuck) = Ret a ->
        exists n, (n <= List.length perm)%nat /\ a = fst (run (read hash (nth j ks [])) (serial hash f0 (firstn n perm)))).
 Proof. intros H1 H2 H3 H4. exact (serializable_with_readers hash HL ws f0 m0 W0 H1 H2 H3 H4 ks pl' rl' f' rs). Qed.
+
+(* the same with two kinds of readers in one pool: read by key (two steps) and metadata / index lookup (one step) *)
+Theorem C07_serializable_mixed (HL : HashLen hash) ws f0 m0 W0 ops pl' rl' f' rs :
+  HInv hash f0 m0 W0 -> coll0 hash ws f0 ->
+  forallb (kv_ok hash) (map kv_of ws) = true -> NoColl hash (W0 ++ written (map kv_of ws)) ->
+  oreach (map (wprog hash) ws, map (rprog hash) ops, f0) (pl', rl', f') -> results pl' = Some rs ->
+  exists perm,
+    Permutation perm ws /\
+    rs = map (fun x => Ok (x_res hash x)) ws /\
+    (forall op, ranswer hash op f' = ranswer hash op (serial hash f0 perm)) /\
+    (forall j a, (j < List.length ops)%nat -> nth j rl' (Ret (OMeta Stuck)) = Ret a ->
+       exists n, (n <= List.length perm)%nat /\ a = ranswer hash (nth j ops (RMeta [])) (serial hash f0 (firstn n perm))).
+Proof. intros H1 H2 H3 H4. exact (serializable_mixed hash HL ws f0 m0 W0 H1 H2 H3 H4 ops pl' rl' f' rs). Qed.
+
+(* the reader programs are the library's read / find programs (their results tagged), the atomic answers their runs *)
+Theorem C07_rprog_is_read_or_find op :
+  rprog hash op = match op with RRead k => bind (read hash k) (fun r => Ret (OBytes r)) | RMeta k => bind (find hash k) (fun r => Ret (OMeta r)) end /\
+  forall f, ranswer hash op f = match op with RRead k => OBytes (fst (run (read hash k) f)) | RMeta k => OMeta (fst (run (find hash k) f)) end.
+Proof. split; [destruct op; reflexivity|intros f; destruct op; reflexivity]. Qed.
 
 (* [serial] is the sequential execution of the library's programs: a writer's [write], a remover's [delete] *)
 Theorem C07_serial_is_sequential f0 x xs :
@@ -335,6 +355,7 @@ Print Assumptions C07_conc_writes_serializable.
 Print Assumptions C07_observations_monotone.
 Print Assumptions C07_readers_among_writers.
 Print Assumptions C07_serializable_with_readers.
+Print Assumptions C07_serializable_mixed.
 Print Assumptions C07_initial_cache_ok.
 Print Assumptions C07_atomic_read_value.
 Print Assumptions C07_backed_reachable.
